@@ -70,6 +70,9 @@ pub fn cfg_for(scn: Scenario, t: &mut Tape, extra: u64) -> RunCfg {
             c.p_partial_write = [200, 600, 900][t.choose(3) as usize];
             c.p_frag_read = [0, 400][t.choose(2) as usize];
             c.p_cancel = [200, 400, 700][t.choose(3) as usize];
+            // a third of the runs have a broker Receive Maximum of 1..3: a unit of the send
+            // quota lost to a cancellation is felt at once
+            c.twin_receive_max = [0u16, 0, 0, 0, 1, 2, 3, 1, 2][t.choose(9) as usize];
             match t.choose(3) {
                 1 => {
                     // timed variant: a keep-alive runs and the application does something else
@@ -92,6 +95,11 @@ pub fn cfg_for(scn: Scenario, t: &mut Tape, extra: u64) -> RunCfg {
             c.p_cancel = 0;
             c.p_partial_write = [300, 700, 950][t.choose(3) as usize];
             c.p_frag_read = [300, 700, 950][t.choose(3) as usize];
+            if k == 1 && t.chance(1, 8) {
+                // one run in eight has a 300 kB arena and publishes longer than 64 KiB
+                c.big = 1;
+                c.tx_len = 300_000;
+            }
             if k == 1 {
                 match t.choose(3) {
                     1 => {
@@ -655,6 +663,22 @@ fn cancel_twin() {
                 );
             }
             return;
+        }
+        // "one that was not [enqueued] leaves no trace": a cancellation never costs a resource. A
+        // request the uncancelled run accepts is not refused for lack of one in the cancelled run
+        // (which, if anything, has more room: requests cancelled before being enqueued hold
+        // nothing). Comparable when both runs went through the same sessions and the uncancelled
+        // run refused nothing for lack of a resource (otherwise the cancelled run may have
+        // accepted that request instead, and holds it).
+        if base.nconns == twin.nconns && base.epochs == twin.epochs && base.refused_for_resources.is_empty() {
+            if let Some(t) = twin.refused_for_resources.iter().find(|t| !base.not_accepted.contains(t)) {
+                let why = w.reqs.iter().find(|r| r.tag == *t).and_then(|r| r.refused_with.clone()).unwrap_or_default();
+                w.violate(
+                    "C13",
+                    format!("refused-for-lack-of-a-resource-only-after-cancellations/{why}"),
+                    format!("request t{t} is accepted in the uncancelled run and refused with {why} in the run with cancellations"),
+                );
+            }
         }
         // remove from the base run what was not accepted in the twin
         // ... and from the twin what the base run refused for lack of a resource: requests that
